@@ -41,6 +41,8 @@ type Result struct {
 	Hang     bool                 `json:"hang,omitempty"`
 	HangInfo string               `json:"hangInfo,omitempty"`
 	Order    string               `json:"order"` // realised completion order (exit events)
+	// HoldReached: the HoldOpen level was reached before the liveness bound.
+	HoldReached bool `json:"holdReached,omitempty"`
 	WallUS   int64                `json:"wallUS"`
 }
 
@@ -362,6 +364,19 @@ loop:
 			lastProgress = time.Now()
 		}
 		blocked := w.Blocked()
+		if c.HoldOpen > 0 && !res.HoldReached {
+			if w.OpenCount() >= c.HoldOpen {
+				res.HoldReached = true
+			} else if time.Since(lastProgress) > bound {
+				res.HoldReached = false
+				c2 := *c
+				c2.HoldOpen = 0
+				c = &c2 // give up holding; the verdict is in HoldReached
+			} else {
+				time.Sleep(tiny)
+				continue
+			}
+		}
 		if len(blocked) == 0 {
 			if time.Since(lastProgress) > bound {
 				res.Hang = true
